@@ -1,8 +1,12 @@
 """C08 — Wasserstein embeddings depend only on the measure, not on its encoding.
 
-Proof gate (Properties/C08.v, Properties/C08_isometry.v) + correspondence of the per-row pipeline of
-lot_vectors_dense_internal / lot_vectors_sparse_internal with Model/K17_LOTglue.lot_pipeline executed on binary64
-(PrimFloat, vm_compute) with the implementation's own plan as input + property oracle on the implementation:
+Proof gate (Properties/C08.v and every Properties/C08_*.v: C08_isometry, C08_spherical) + correspondence of the per-row
+pipeline of lot_vectors_dense_internal / lot_vectors_sparse_internal (euclidean and cosine / spherical branch) with
+Model/K17_LOTglue.lot_pipeline and Model/K17_LOTspherical.lot_pipeline_sph executed on binary64 (PrimFloat,
+vm_compute) with the implementation's own plan as input, of sinkhorn_vectors_sparse_internal with
+K17_LOTspherical.sinkhorn_row given the implementation's own Sinkhorn scalings, and of
+ApproximateWassersteinVectorizer.transform with Model/K17_ApproxW.approx_transform given the fitted SVD factors
++ property oracle on the implementation:
 every distribution re-encoded by scale / zero-padding / permutation / splitting, memory_size from "1k" upward,
 input formats, metrics, reference sizes, for the Wasserstein, Sinkhorn and ApproximateWasserstein vectorizers, and the
 pairwise-distance isometry at full-rank n_components."""
@@ -328,8 +332,8 @@ def gen_pipeline_sph(rng):
         xs = [unit(v) for v in xs]
     if mode != "raw-y":
         ys = [unit(v) for v in ys]
-    if n >= 2 and rng.random() < 0.15:
-        xs[0] = list(ys[0])                      # a support point that IS a reference point (zero tangent vector)
+    if rng.random() < 0.2:
+        xs[0] = list(ys[0])                      # a support point that IS a reference point (n = 1: zero tangent vector)
     case.update({"spherical": True, "d": d, "xs": xs, "ys": ys, "vec_mode": mode})
     return case
 
@@ -643,7 +647,12 @@ def run(ctx, replay=None):
     ctx.coverage["rule"] = ("scenarios = random distribution collection x vector set x metric x reference size; each transformed at "
                             "memory_size 1k..2G, in every input format, and re-encoded by scale / zero-padding (structural and stored "
                             "zeros) / permutation / splitting (+ a combination, + duplicated rows); non-trivial = every scenario; "
-                            "pipeline cases = one row through lot_vectors_{dense,sparse}_internal vs the Coq model")
+                            "pipeline cases = one row through lot_vectors_{dense,sparse}_internal vs the Coq model (euclidean "
+                            "metric with spherical_vectors=False; cosine metric with spherical_vectors=True, unit and non-unit "
+                            "vectors, a support point equal to a reference point); sinkrow cases = one chunk through "
+                            "sinkhorn_vectors_sparse_internal vs the model given the chunk's own (u, v, K); approxrow cases = "
+                            "ApproximateWassersteinVectorizer.transform (normalization_power 1, 0.5, 2, 0; csr with stored zeros "
+                            "and unsorted columns, ndarray) vs the model given components_ and singular_values_")
     ctx.assumptions += [
         "the transport plan (network simplex) and the SVD are external: the theorems take the plan as input and V V^T = I as hypothesis; "
         "the harness checks |VV^T - I| and the rank on every isometry case",
@@ -653,6 +662,11 @@ def run(ctx, replay=None):
         "truncation is covered by the pipeline correspondence (distinct weights)",
         "ApproximateWassersteinVectorizer: normalization_power = 1 (other powers are scale dependent by design); encodings that change "
         "the vector set are compared through fit_transform because transform has no vectors argument",
+        "spherical rows are compared entry by entry at 1e-9 absolute; after the kernel's signed square root an entry is also "
+        "accepted when the signed squares agree to 1e-13 (sqrt turns an absolute rounding error e at 0 into sqrt(e)); a block whose "
+        "model tangent vector is shorter than 1e-6 before normalisation while its output is not small (antipodal image: direction "
+        "undefined) is skipped; both events are counted in coverage.correspondence",
+        "the float32 store of the tangent scale is modelled as round-to-nearest-even on 24 bits (normal float32 range)",
         "work-arounds for defects owned elsewhere: D17 fresh copies of inputs per call; D18 private cachedir removed by the child; "
         "D7 generator-vs-matrix transform compared for cosine only; lil transform with ragged vector sets (non-cosine) avoided",
     ]
